@@ -4,7 +4,7 @@ sys.path.insert(0, os.path.dirname(os.path.dirname(os.path.abspath(__file__))))
 import vlib
 
 PID = "C05"
-LEAN_MODULES = ["QbiceVerif.Props.C05"]
+LEAN_MODULES = ["QbiceVerif.Props.C05", "QbiceVerif.Props.NonVacuity.C05"]
 DRIVER = "drv_cancel"
 HARNESS_BIN = "cancel"
 HARNESS_FEATURES = ""
